@@ -10,6 +10,7 @@ import (
 	"reflect"
 	"runtime"
 	"strings"
+	"sync/atomic"
 	"testing"
 	"testing/synctest"
 	"time"
@@ -31,6 +32,7 @@ type scripted struct {
 	runaway   bool
 	same      int // consecutive attempts started at the same (virtual) instant
 	errKind   int // which error value failed attempts return (varied per attempt)
+	firstDur  time.Duration
 }
 
 // netTimeout is a net.Error-shaped failure.
@@ -40,7 +42,20 @@ func (netTimeout) Error() string   { return "i/o timeout" }
 func (netTimeout) Timeout() bool   { return true }
 func (netTimeout) Temporary() bool { return true }
 
-const nErrKinds = 8
+// sliceErr and structErr are error values of uncomparable dynamic types (an aggregate of errors, a value with a slice
+// field): comparing two of them with == panics at run time.
+type sliceErr []string
+
+func (e sliceErr) Error() string { return "several errors: " + fmt.Sprint([]string(e)) }
+
+type structErr struct {
+	op    string
+	parts []string
+}
+
+func (e structErr) Error() string { return e.op + fmt.Sprint(e.parts) }
+
+const nErrKinds = 10
 
 // failure returns the error of a failed attempt: whatever its kind, a failed attempt is just a failed attempt.
 func failure(kind int, u string) error {
@@ -59,11 +74,22 @@ func failure(kind int, u string) error {
 		return errors.New("timeout")
 	case 7:
 		return context.DeadlineExceeded
+	case 8:
+		return sliceErr{"connection reset", u}
+	case 9:
+		return structErr{"get ", []string{u}}
 	}
 	return errors.New("scripted failure")
 }
 
 const runawayAttempts = 20000
+
+func (s *scripted) durOf(attempt int) time.Duration {
+	if attempt == 1 && s.firstDur > 0 {
+		return s.firstDur
+	}
+	return s.dur
+}
 
 func (s *scripted) Get(url string) (map[string][]string, []byte, error) {
 	now := time.Now()
@@ -79,8 +105,8 @@ func (s *scripted) Get(url string) (map[string][]string, []byte, error) {
 		return nil, nil, errors.New("scripted failure (runaway)")
 	}
 	s.starts = append(s.starts, now)
-	if s.dur > 0 {
-		time.Sleep(s.dur)
+	if d := s.durOf(len(s.starts)); d > 0 {
+		time.Sleep(d)
 	}
 	s.ends = append(s.ends, time.Now())
 	if len(s.starts) == s.successAt {
@@ -98,18 +124,23 @@ var failedHeaders = []map[string][]string{
 
 type c20Case struct {
 	Timeout, MaxDelay, Dur time.Duration
+	FirstDur               time.Duration // duration of the first attempt when it differs from the others (0 = Dur)
 	SuccessAt              int
 	HeaderKind, BodyLen    int
 	ErrKind                int // < nErrKinds: every failure of that kind; >= nErrKinds: kinds vary per attempt
 }
 
 func (c c20Case) String() string {
-	return fmt.Sprintf("timeout=%v maxRetryDelay=%v attemptDuration=%v successAt=%d errKind=%d", c.Timeout, c.MaxDelay, c.Dur, c.SuccessAt, c.ErrKind)
+	first := ""
+	if c.FirstDur > 0 {
+		first = fmt.Sprintf(" firstAttemptDuration=%v", c.FirstDur)
+	}
+	return fmt.Sprintf("timeout=%v maxRetryDelay=%v attemptDuration=%v%s successAt=%d errKind=%d", c.Timeout, c.MaxDelay, c.Dur, first, c.SuccessAt, c.ErrKind)
 }
 
 // newScripted builds the wrapped getter of one call.
 func newScripted(c c20Case, s *gen.Stream) (*scripted, []byte) {
-	sg := &scripted{successAt: c.SuccessAt, dur: c.Dur, errKind: c.ErrKind}
+	sg := &scripted{successAt: c.SuccessAt, dur: c.Dur, errKind: c.ErrKind, firstDur: c.FirstDur}
 	switch c.HeaderKind {
 	case 0:
 		sg.header = nil
@@ -164,12 +195,15 @@ func judge(c c20Case, sg *scripted, wantBody []byte, h map[string][]string, b []
 	}
 	// (3) bounded give-up
 	bound := c.Timeout + c.MaxDelay + 2*c.Dur + time.Millisecond
+	if c.FirstDur > 0 && attempts <= 1 {
+		bound += c.FirstDur // the only attempt was the slow one: it is allowed to finish
+	}
 	if elapsed > bound {
 		return "gives-up-too-late", fmt.Sprintf("%s: returned the error after %v (bound %v)", c, elapsed, bound)
 	}
 	// (1') must not give up while the timeout still allows the successful attempt
 	if c.SuccessAt != 0 {
-		latestStart := time.Duration(c.SuccessAt-1) * (c.Dur + c.MaxDelay)
+		latestStart := time.Duration(c.SuccessAt-1)*(c.Dur+c.MaxDelay) + maxDur(c.FirstDur-c.Dur, 0)
 		if latestStart+c.Dur < c.Timeout {
 			return "gives-up-too-early", fmt.Sprintf("%s: attempt %d would have started by %v at the latest, well inside the timeout, but an error was returned after %d attempts at %v", c, c.SuccessAt, latestStart, attempts, elapsed)
 		}
@@ -183,7 +217,10 @@ func runCase(c c20Case, s *gen.Stream) (string, string) {
 	sg, wantBody := newScripted(c, s)
 	r := &trust.RetryHTTPSGetter{Timeout: c.Timeout, MaxRetryDelay: c.MaxDelay, Getter: sg}
 	t0 := time.Now()
-	h, b, err := r.Get("https://example.test/x")
+	h, b, err, crash := safeGet(r, "https://example.test/x")
+	if crash != "" {
+		return "panic", fmt.Sprintf("%s: Get crashed: %s", c, crash)
+	}
 	elapsed := time.Since(t0)
 	attempts := len(sg.starts)
 	if key, detail := judge(c, sg, wantBody, h, b, err, elapsed); key != "" {
@@ -197,6 +234,17 @@ func runCase(c c20Case, s *gen.Stream) (string, string) {
 		}
 	}
 	return "", ""
+}
+
+// safeGet calls the retrying getter and turns a panic into a value (the property: "returns ... or an error").
+func safeGet(r *trust.RetryHTTPSGetter, u string) (h map[string][]string, b []byte, err error, crash string) {
+	defer func() {
+		if p := recover(); p != nil {
+			crash = fmt.Sprint(p)
+		}
+	}()
+	h, b, err = r.Get(u)
+	return
 }
 
 // byURL dispatches to one scripted getter per URL, so that several callers can share one retrying getter.
@@ -227,13 +275,21 @@ func runConcurrent(cs []c20Case, s *gen.Stream) (string, string) {
 	for i := range cs {
 		go func(i int) {
 			t0 := time.Now()
-			h, b, err := r.Get(fmt.Sprintf("https://example.test/%d", i))
+			h, b, err, crash := safeGet(r, fmt.Sprintf("https://example.test/%d", i))
+			if crash != "" {
+				err = fmt.Errorf("Get crashed: %s", crash)
+				crashed.Store(crash)
+			}
 			res[i] = result{h, b, err, time.Since(t0)}
 			done <- i
 		}(i)
 	}
 	for range cs {
 		<-done
+	}
+	if c, ok := crashed.Load().(string); ok && c != "" {
+		crashed.Store("")
+		return "panic:concurrent", fmt.Sprintf("a caller sharing one retrying getter crashed: %s", c)
 	}
 	for i, c := range cs {
 		if key, detail := judge(c, sgs[i], wants[i], res[i].h, res[i].b, res[i].err, res[i].elapsed); key != "" {
@@ -242,6 +298,8 @@ func runConcurrent(cs []c20Case, s *gen.Stream) (string, string) {
 	}
 	return "", ""
 }
+
+var crashed atomic.Value
 
 var durs = []time.Duration{0, time.Millisecond, time.Second, 4 * time.Second, 5 * time.Second, 30 * time.Second, 2 * time.Minute, 10 * time.Minute}
 
@@ -313,6 +371,14 @@ func TestC20(t *testing.T) {
 		}
 		if c.MaxDelay < time.Microsecond && c.Dur == 0 {
 			c.Dur = time.Millisecond
+		}
+		// a first attempt that is much slower than the later ones (a cold connection): the timeout runs from the start of
+		// the call, not from the end of the first attempt
+		switch rapid.IntRange(0, 3).Draw(t, "slowFirstAttempt") {
+		case 0:
+			c.FirstDur = c.Timeout * 9 / 10
+		case 1:
+			c.FirstDur = c.Timeout / 2
 		}
 		// keep the number of attempts a case can make bounded
 		if step := c.Dur + minDur(c.MaxDelay, 4*time.Second); step > 0 && c.Timeout/step > 5000 {
@@ -406,6 +472,13 @@ func runConcurrentWatched(t *testing.T, cs []c20Case, s *gen.Stream) (key, detai
 
 func minDur(a, b time.Duration) time.Duration {
 	if a < b {
+		return a
+	}
+	return b
+}
+
+func maxDur(a, b time.Duration) time.Duration {
+	if a > b {
 		return a
 	}
 	return b
